@@ -718,6 +718,9 @@ func runC21(tier, replay string) {
 	if r.Counter("drain_checks") == 0 || r.Counter("drain_objects_compared") == 0 {
 		r.Inconclusive("drain state never compared")
 	}
+	if n >= 16 && r.Counter("entries_left_leased_by_foreign_owner") == 0 {
+		r.Inconclusive("no entry was ever left leased by a foreign owner")
+	}
 	if r.Counter("hook_hits:storageoutbox.after-replay") == 0 {
 		r.Inconclusive("storageoutbox.after-replay hook never hit")
 	}
